@@ -65,6 +65,29 @@ def fin(x):
     return {"buf": s["buf"], "cur": s["cur"]["value"], "regs": s["regs"]}
 
 
+def st(step):
+    s = step["post"]
+    return {"buf": s["buf"], "cur": s["cur"]["value"], "regs": s["regs"]}
+
+
+def first_kind(step):
+    """kind of the first command of the step as the editor really executed it: a command handed to ViCut::exec_cmd ('cmd')
+    that did not reach LineBuf::exec_cmd ('lb') was abandoned"""
+    tr = step["trace"]
+    for i, t in enumerate(tr):
+        if t["k"] == "cmd":
+            c = parse_cmd(t["cmd"])
+            if c is None:
+                return None
+            if c["kind"] != "change":
+                return c["kind"]
+            # the 'cmd' entry is written when ViCut::exec_cmd returns: the change's own 'lb' entry comes before it
+            if any(u["k"] == "lb" and (parse_cmd(u["cmd"]) or {}).get("kind") == "change" for u in tr[:i]):
+                return "change"
+            return "abandoned"
+    return None
+
+
 def with_count(x, base, cnt, session):
     if not cnt:
         return x
@@ -125,12 +148,31 @@ def run(tier, seed, replay=None):
         R.count("session" if c["session"] else "single")
         R.count("count:" + (c["count"] or "none"))
         R.count("between:%d" % len(c["between"]))
+        # A change whose motion fails at the new position is abandoned (as in Vim): retyping X there does not
+        # perform X (the keys after the operator run as normal-mode commands), so "typing X again" is no oracle
+        # from that point on. What `.` owes then is to do nothing; the histories are compared up to that point.
+        first_dot = 1 + npre + 1 + len(c["between"])
+        x_kind = first_kind(xa["steps"][1 + npre])
+        if c["session"] and c["x"][0] in "cCS" and x_kind != "change":
+            R.count("x_abandoned_where_first_typed")
+            continue
+        if x_kind == "change":
+            gone = next((d for d in range(c["dots"]) if first_kind(xb["steps"][first_dot + d]) != "change"), None)
+            if gone is not None:
+                R.count("retyped_change_abandoned")
+                sa0, sb0, sa1 = st(xa["steps"][first_dot + gone - 1]), st(xb["steps"][first_dot + gone - 1]), st(xa["steps"][first_dot + gone])
+                if sa0 != sb0:
+                    diff = [k for k in sa0 if sa0[k] != sb0[k]]
+                    R.violation("'.' differs from retyping %r in %s (before the position where the change fails): dot %s, typed %s" % (c["x"], diff, canon({k: sa0[k] for k in diff})[:160], canon({k: sb0[k] for k in diff})[:160]), c)
+                elif sa1 != sa0:
+                    diff = [k for k in sa0 if sa0[k] != sa1[k]]
+                    R.violation("'.' of %r where its motion fails must do nothing, it changed %s: %s -> %s" % (c["x"], diff, canon({k: sa0[k] for k in diff})[:160], canon({k: sa1[k] for k in diff})[:160]), c)
+                continue
         if a != b:
             diff = [k for k in a if a[k] != b[k]]
             R.violation("'.' differs from retyping %r in %s: dot %s, typed %s" % (c["x"], diff, canon({k: a[k] for k in diff})[:160], canon({k: b[k] for k in diff})[:160]), c)
             continue
         # same route: the commands handed to LineBuf::exec_cmd by each '.' and by each retyped X
-        first_dot = 1 + npre + 1 + len(c["between"])
         for d in range(c["dots"]):
             da = [strip(x) for x in lb_cmds(xa["steps"][first_dot + d]) if x]
             db = [strip(x) for x in lb_cmds(xb["steps"][first_dot + d]) if x]
